@@ -95,7 +95,7 @@ Fixpoint lin (fuel : nat) (now : Z) (front : list cfg) (fin : state -> bool) : b
       match front with
       | [] => false
       | c :: _ =>
-          if forallb is_nil (fst c) then existsb (fun c => fin (snd c)) front
+          if forallb is_nil (fst c) then existsb (fun c => forallb is_nil (fst c) && fin (snd c)) front
           else lin f now (dedup (flat_map (succs now) front) []) fin
       end
   end.
@@ -246,13 +246,15 @@ Fixpoint steps_ok (pm : list emode) (pa : emode) (ch : bool) (steps : list (Z * 
 
 Definition cop_activated (c : cop) : bool := activates (cop_op c) && (ccode c =? 0).
 
-(* the set of modes a subscriber reconstructs from the events *)
+(* the set of modes a subscriber reconstructs from the events (kept in id order, like a listing) *)
 Definition apply_event (l : list emode) (e : mevent) : list emode :=
   match e with
-  | MAdd m => l ++ [m]
-  | MUpdate _ m => map (fun x => if String.eqb (mid x) (mid m) then m else x) l
-  | MRemove m => filter (fun x => negb (String.eqb (mid x) (mid m))) l
+  | MAdd m => insert m l
+  | MUpdate _ m => replace m l
+  | MRemove m => remove (mid m) l
   end.
+(* the last element of a list, [d] for the empty list *)
+Definition lastd {A} (l : list A) (d : A) : A := fold_left (fun _ x => x) l d.
 Fixpoint views_ok (l : list emode) (evs : list mevent) : bool :=
   (zlen (normals l) <=? 1) &&
   match evs with
@@ -273,8 +275,8 @@ Definition C19_ok (c : c19case) : bool :=
       (* a subscriber never sees two normal modes; at the end the last active value it was told
          about (if any call changed it) names a mode it still knows *)
       views_ok [] mev
-      && match rev aev with
-         | last :: _ :: _ => id_in (mid last) (fold_left apply_event mev [])
+      && match aev with
+         | _ :: _ :: _ => id_in (mid (lastd aev blank)) (fold_left apply_event mev [])
          | _ => true
          end
   end.
@@ -295,7 +297,10 @@ Definition C19_guard (c : c19case) : bool :=
   match c with
   | KSeq initial _ steps => initial_ok initial && forallb (fun p => op_guard (snd (fst p))) steps
   | KConc initial _ threads _ => initial_ok initial && forallb (forallb (fun c => op_guard (cop_op c))) threads
-  | KStream initial steps _ _ => initial_ok initial && forallb (fun p => op_guard (snd p)) steps
+  | KStream initial steps _ _ =>
+      (* the seed events rebuild the initial listing: the initial modes are given in id order *)
+      initial_ok initial && emodes_eqb (fold_left apply_event (map MAdd initial) []) initial
+      && forallb (fun p => op_guard (snd p)) steps
   end.
 
 Definition judge (c : c19case) : Z :=
